@@ -410,6 +410,19 @@ def run(ctx):
                         a, o, t = gen_valid(rng, ctx.quick, share=False, empty_p=0.04)
                 else:
                     a, o, t = gen_valid(rng, ctx.quick, share=False, empty_p=0.04)
+                if rng.random() < 0.2:
+                    # one leaf DECLARED constant (an item that is always part of the order, a quantity that is fixed): the
+                    # shapes on which reduce / assume have something to fold away without any dictionary
+                    try:
+                        lvs = sorted(declared_bounds(a), key=str)
+                        if lvs:
+                            name = rng.choice(lvs); c_ = rng.choice([0, 1, 1, 1, 2, 3])
+                            a2 = with_leaf_bounds(a, name, c_, c_)
+                            o2 = build(a2)
+                            if not is_var(o2) and well_formed(snap(o2), allow_empty=True) and not o2.errors():
+                                a = a2; ctx.tags["model-with-a-leaf-declared-constant"] += 1
+                    except Exception:
+                        pass
                 objs.append(a)
         live = [build(a) for a in objs]
         snaps = [snap(o) for o in live]
